@@ -30,12 +30,16 @@ type World struct {
 	Axioms  []func(c *Ctx, in ssa.Instruction)
 	// Contracts
 	Requires map[string]string // function name → textual contract (evidence)
+	// entry facts inferred from call sites (entry.go)
+	calls     *callIndex
+	entryC    map[*ssa.Function][]entryFact
+	EntryUsed map[string]int
 }
 
 func NewWorld(p *load.Program) *World {
 	w := &World{P: p, callees: map[*ssa.Function][]*ssa.Function{}, modset: map[*ssa.Function]map[string]bool{},
 		direct: map[*ssa.Function]map[string]bool{}, methods: map[string][]*ssa.Function{}, fi: map[*ssa.Function]*FuncInfo{},
-		Requires: map[string]string{}}
+		Requires: map[string]string{}, entryC: map[*ssa.Function][]entryFact{}, EntryUsed: map[string]int{}}
 	w.Funcs = p.SrcFuncs()
 	// VTA call graph: used to resolve interface invokes precisely
 	cg := vta.CallGraph(ssautil.AllFunctions(p.SSA), cha.CallGraph(p.SSA))
